@@ -3,11 +3,11 @@
    Everything the conversion helpers of dnp3/src/app/measurement.rs do with floats, defined on
    the bit patterns (no real numbers here; App/FloatBitsProofs.v relates the functions to Flocq):
 
-     f64_lt              the `<` / `>` of the range checks (false when either side is NaN, -0 = +0)
-     f64_to_int lo hi    Rust `f64 as iN`: truncation toward zero, saturation, NaN -> 0
-     f64_to_f32          Rust `f64 as f32`: round to nearest even, overflow to infinity, NaN quieted
-     f32_to_f64          Rust `f32 as f64`: exact widening
-     f64_of_Z            Rust `iN as f64` for |z| < 2^53: exact
+     fb64_lt              the `<` / `>` of the range checks (false when either side is NaN, -0 = +0)
+     fb64_to_int lo hi    Rust `f64 as iN`: truncation toward zero, saturation, NaN -> 0
+     fb64_to_f32          Rust `f64 as f32`: round to nearest even, overflow to infinity, NaN quieted
+     fb32_to_f64          Rust `f32 as f64`: exact widening
+     fb64_of_Z            Rust `iN as f64` for |z| < 2^53: exact
 
    Definitions only (model file). *)
 From Dnp3V Require Import Base.Bytes.
@@ -18,43 +18,43 @@ Definition p52 : N := 4503599627370496.          (* 2^52 *)
 Definition p63 : N := 9223372036854775808.       (* 2^63 *)
 Definition p64 : N := 18446744073709551616.      (* 2^64 *)
 
-Definition f64_sign (b : N) : N := (b / p63) mod 2.
-Definition f64_exp (b : N) : N := (b / p52) mod 2048.
-Definition f64_mant (b : N) : N := b mod p52.
-Definition f64_mag (b : N) : N := b mod p63.     (* the pattern without its sign bit *)
+Definition fb64_sign (b : N) : N := (b / p63) mod 2.
+Definition fb64_exp (b : N) : N := (b / p52) mod 2048.
+Definition fb64_mant (b : N) : N := b mod p52.
+Definition fb64_mag (b : N) : N := b mod p63.     (* the pattern without its sign bit *)
 
-Definition f64_is_nan (b : N) : bool := (f64_exp b =? 2047) && negb (f64_mant b =? 0).
-Definition f64_is_inf (b : N) : bool := (f64_exp b =? 2047) && (f64_mant b =? 0).
-Definition f64_is_finite (b : N) : bool := f64_exp b <? 2047.
+Definition fb64_is_nan (b : N) : bool := (fb64_exp b =? 2047) && negb (fb64_mant b =? 0).
+Definition fb64_is_inf (b : N) : bool := (fb64_exp b =? 2047) && (fb64_mant b =? 0).
+Definition fb64_is_finite (b : N) : bool := fb64_exp b <? 2047.
 
-(* significand and the exponent e such that |value| = f64_sig b * 2^(f64_e b - 1075) *)
-Definition f64_sig (b : N) : N := if f64_exp b =? 0 then f64_mant b else p52 + f64_mant b.
-Definition f64_e (b : N) : N := N.max (f64_exp b) 1.
+(* significand and the exponent e such that |value| = fb64_sig b * 2^(fb64_e b - 1075) *)
+Definition fb64_sig (b : N) : N := if fb64_exp b =? 0 then fb64_mant b else p52 + fb64_mant b.
+Definition fb64_e (b : N) : N := N.max (fb64_exp b) 1.
 
 (* order-preserving key: for non-NaN a, b the IEEE order is the order of the keys *)
-Definition f64_key (b : N) : Z :=
-  if f64_sign b =? 0 then Z.of_N (f64_mag b) else (- Z.of_N (f64_mag b))%Z.
+Definition fb64_key (b : N) : Z :=
+  if fb64_sign b =? 0 then Z.of_N (fb64_mag b) else (- Z.of_N (fb64_mag b))%Z.
 
-Definition f64_lt (a b : N) : bool :=
-  negb (f64_is_nan a) && negb (f64_is_nan b) && (f64_key a <? f64_key b)%Z.
-Definition f64_gt (a b : N) : bool := f64_lt b a.
+Definition fb64_lt (a b : N) : bool :=
+  negb (fb64_is_nan a) && negb (fb64_is_nan b) && (fb64_key a <? fb64_key b)%Z.
+Definition fb64_gt (a b : N) : bool := fb64_lt b a.
 
 (* |trunc(value)| of a finite pattern *)
-Definition f64_trunc_mag (b : N) : N :=
-  if 1075 <=? f64_e b then f64_sig b * 2 ^ (f64_e b - 1075)
-  else f64_sig b / 2 ^ (1075 - f64_e b).
+Definition fb64_trunc_mag (b : N) : N :=
+  if 1075 <=? fb64_e b then fb64_sig b * 2 ^ (fb64_e b - 1075)
+  else fb64_sig b / 2 ^ (1075 - fb64_e b).
 
-Definition f64_trunc (b : N) : Z :=
-  if f64_sign b =? 0 then Z.of_N (f64_trunc_mag b) else (- Z.of_N (f64_trunc_mag b))%Z.
+Definition fb64_trunc (b : N) : Z :=
+  if fb64_sign b =? 0 then Z.of_N (fb64_trunc_mag b) else (- Z.of_N (fb64_trunc_mag b))%Z.
 
 (* Rust `value as iN` with the bounds lo..hi of the target type *)
-Definition f64_to_int (lo hi : Z) (b : N) : Z :=
-  if f64_is_nan b then 0%Z
-  else if f64_is_inf b then (if f64_sign b =? 0 then hi else lo)
-  else Z.max lo (Z.min hi (f64_trunc b)).
+Definition fb64_to_int (lo hi : Z) (b : N) : Z :=
+  if fb64_is_nan b then 0%Z
+  else if fb64_is_inf b then (if fb64_sign b =? 0 then hi else lo)
+  else Z.max lo (Z.min hi (fb64_trunc b)).
 
 (* Rust `z as f64` for an integer of magnitude below 2^53 (exact) *)
-Definition f64_of_Z (z : Z) : N :=
+Definition fb64_of_Z (z : Z) : N :=
   match z with
   | Z0 => 0
   | _ => let n := Z.abs_N z in
@@ -68,14 +68,14 @@ Definition p31 : N := 2147483648.                (* 2^31 *)
 Definition p32 : N := 4294967296.                (* 2^32 *)
 Definition p29 : N := 536870912.                 (* 2^29 *)
 
-Definition f32_sign (b : N) : N := (b / p31) mod 2.
-Definition f32_exp (b : N) : N := (b / p23) mod 256.
-Definition f32_mant (b : N) : N := b mod p23.
-Definition f32_is_nan (b : N) : bool := (f32_exp b =? 255) && negb (f32_mant b =? 0).
+Definition fb32_sign (b : N) : N := (b / p31) mod 2.
+Definition fb32_exp (b : N) : N := (b / p23) mod 256.
+Definition fb32_mant (b : N) : N := b mod p23.
+Definition fb32_is_nan (b : N) : bool := (fb32_exp b =? 255) && negb (fb32_mant b =? 0).
 
-Definition f32_inf_mag : N := 2139095040.        (* 0x7F800000 *)
-Definition f32_quiet : N := 4194304.             (* 0x00400000 *)
-Definition f64_quiet : N := 2251799813685248.    (* 2^51 *)
+Definition fb32_inf_mag : N := 2139095040.        (* 0x7F800000 *)
+Definition fb32_quiet : N := 4194304.             (* 0x00400000 *)
+Definition fb64_quiet : N := 2251799813685248.    (* 2^51 *)
 
 (* round to nearest, ties to even, of m / 2^s *)
 Definition rne_shift (m s : N) : N :=
@@ -88,40 +88,40 @@ Definition rne_shift (m s : N) : N :=
   end.
 
 (* Rust `value as f32` *)
-Definition f64_to_f32 (b : N) : N :=
-  let s := f64_sign b * p31 in
-  if f64_is_nan b then s + f32_inf_mag + N.lor f32_quiet (f64_mant b / p29)
-  else if f64_is_inf b then s + f32_inf_mag
+Definition fb64_to_f32 (b : N) : N :=
+  let s := fb64_sign b * p31 in
+  if fb64_is_nan b then s + fb32_inf_mag + N.lor fb32_quiet (fb64_mant b / p29)
+  else if fb64_is_inf b then s + fb32_inf_mag
   else
     (* |value| = sig * 2^(e - 1075); binary32 at biased exponent e32 >= 1 has unit 2^(e32 - 150) *)
-    let e := f64_e b in
+    let e := fb64_e b in
     let e32 := if 897 <=? e then e - 896 else 1 in          (* candidate biased exponent, >= 1 *)
     let shift := if 897 <=? e then 29 else 29 + (897 - e) in (* sig / 2^shift in units of e32 *)
-    let m32 := rne_shift (f64_sig b) shift in
+    let m32 := rne_shift (fb64_sig b) shift in
     let mag := (e32 - 1) * p23 + m32 in                      (* a carry out of m32 bumps the exponent *)
-    s + (if f32_inf_mag <=? mag then f32_inf_mag else mag).
+    s + (if fb32_inf_mag <=? mag then fb32_inf_mag else mag).
 
 (* Rust `value as f64` of an f32 *)
-Definition f32_to_f64 (b : N) : N :=
-  let s := f32_sign b * p63 in
-  let e := f32_exp b in
-  let m := f32_mant b in
+Definition fb32_to_f64 (b : N) : N :=
+  let s := fb32_sign b * p63 in
+  let e := fb32_exp b in
+  let m := fb32_mant b in
   if e =? 255 then
-    s + 2047 * p52 + (if m =? 0 then 0 else N.lor f64_quiet (m * p29))
+    s + 2047 * p52 + (if m =? 0 then 0 else N.lor fb64_quiet (m * p29))
   else if e =? 0 then
     (if m =? 0 then s
      else let k := N.log2 m in s + (874 + k) * p52 + (m * 2 ^ (52 - k) - p52))
   else s + (e + 896) * p52 + m * p29.
 
 (* ---- the constants the range checks compare against (i16::MIN.into() ... f32::MAX.into()) --- *)
-Definition f64_i16_min : N := 13898108450065350656.  (* 0xC0E0000000000000 = -32768.0 *)
-Definition f64_i16_max : N := 4674736138332667904.   (* 0x40DFFFC000000000 =  32767.0 *)
-Definition f64_i32_min : N := 13970166044103278592.  (* 0xC1E0000000000000 = -2147483648.0 *)
-Definition f64_i32_max : N := 4746794007244308480.   (* 0x41DFFFFFFFC00000 =  2147483647.0 *)
-Definition f64_f32_min : N := 14407015207421345792.  (* 0xC7EFFFFFE0000000 = f32::MIN as f64 *)
-Definition f64_f32_max : N := 5183643170566569984.   (* 0x47EFFFFFE0000000 = f32::MAX as f64 *)
-Definition f32_max_bits : N := 2139095039.           (* 0x7F7FFFFF *)
-Definition f32_min_bits : N := 4286578687.           (* 0xFF7FFFFF *)
+Definition fb64_i16_min : N := 13898108450065350656.  (* 0xC0E0000000000000 = -32768.0 *)
+Definition fb64_i16_max : N := 4674736138332667904.   (* 0x40DFFFC000000000 =  32767.0 *)
+Definition fb64_i32_min : N := 13970166044103278592.  (* 0xC1E0000000000000 = -2147483648.0 *)
+Definition fb64_i32_max : N := 4746794007244308480.   (* 0x41DFFFFFFFC00000 =  2147483647.0 *)
+Definition fb64_f32_min : N := 14407015207421345792.  (* 0xC7EFFFFFE0000000 = f32::MIN as f64 *)
+Definition fb64_f32_max : N := 5183643170566569984.   (* 0x47EFFFFFE0000000 = f32::MAX as f64 *)
+Definition fb32_max_bits : N := 2139095039.           (* 0x7F7FFFFF *)
+Definition fb32_min_bits : N := 4286578687.           (* 0xFF7FFFFF *)
 
 (* two's complement *)
 Definition z_to_u (width : N) (z : Z) : N := Z.to_N (z mod Z.of_N (2 ^ width)).
